@@ -47,7 +47,8 @@ def read_log(s):
 
 
 def run_seq(job):
-    mode, hook, seq = job
+    mode, hook, seq = job[:3]
+    noq = len(job) > 3 and job[3] == "noq"   # the session starts with a template that does not mention the query
     res = dict(evals=1, nt=1 if seq else 0, trans=len(seq))
     hp = None
     if hook:
@@ -57,7 +58,7 @@ def run_seq(job):
     script = os.path.join(base, "gate.sh")
     open(script, "w").write(GATE)
     os.chmod(script, 0o755)
-    cmdA = "%s A {n} {q} {+n}" % script
+    cmdA = ("%s A {n} - {+n}" if noq else "%s A {n} {q} {+n}") % script
     cmdB = "%s B {n} {q} {+n}" % script
     s = P.Session(["--multi", "--no-scrollbar", "--preview-window", "right,50%", "--preview", cmdA], ITEMS, rows=12, cols=70,
                   hook_points=hp, env={"C20_MODE": mode, "C20_DIR": base})
@@ -132,7 +133,7 @@ def run_seq(job):
         if cur is not None and visible:
             n = str(ITEMS.index(cur))
             plus = " ".join(str(ITEMS.index(t)) for t in want["selected"]) if want["selected"] else n
-            exp = "%s|%s|%s|%s" % (tag, n, want["query"], plus)
+            exp = "%s|%s|%s|%s" % (tag, n, "-" if (noq and tag == "A") else want["query"], plus)
         deadline = time.time() + 12.0
         stable_since = None
         last = None
@@ -217,7 +218,7 @@ def run(c, replay):
     if replay:
         import json
         j = json.load(open(replay))["detail"]["job"]
-        sweep.run_jobs(c, "replay", run_seq, [(j[0], j[1], tuple(j[2]))], deadline_s=120, confirm=1)
+        sweep.run_jobs(c, "replay", run_seq, [(j[0], j[1], tuple(j[2])) + tuple(j[3:])], deadline_s=120, confirm=1)
         return
     depth = c.pick(2, 3)
     seqs = [()] + [q for d in range(1, depth + 1) for q in itertools.product(EVENTS, repeat=d)]
@@ -234,6 +235,8 @@ def run(c, replay):
                 if not c.thorough and len(q) == 2 and (hook or mode in ("instant", "chatty")):
                     continue
                 jobs.append((mode, hook, q))
+                if hook is None and mode in ("instant", "slow") and "change-preview" in q and len(q) <= 2:
+                    jobs.append((mode, hook, q, "noq"))
     c.bounds = dict(events=EVENTS, depth=depth, duration_classes=["instant", "slow (gated)", "chatty (incremental output, gated)", "never-ending"],
                     hook_modes=["none", "preview:dequeued held", "preview:started held"], sessions=len(jobs))
     sweep.run_jobs(c, "event-sequences", run_seq, jobs, deadline_s=c.pick(400, 3000), nworkers=16,
